@@ -1,3 +1,4 @@
 import GeoVerif.Ops.Schedules
 import GeoVerif.Ops.Lcoe
+import GeoVerif.Ops.CashFlow
 /-! Everything the driver needs (import-free models + ops). -/
